@@ -1,0 +1,96 @@
+//go:build verif
+
+package ast
+
+// Verification hooks (build tag "verif"). Nothing in this file is compiled
+// into a normal build; see zz_noverif.go for the no-op counterparts.
+
+// VerifNode is a representation-level projection of an ItemNode: the fields
+// of the node as they are stored, copied, without going through String(),
+// ToBytes(), Variables() or Size().
+type VerifNode struct {
+	Kind     string         // "none", "L", "A", "B", "BOOLEAN", "I", "U", "F"
+	ByteSize int            // I, U, F
+	Items    []*VerifNode   // L: one entry per position; nil at a variable position
+	Ints     []int64        // I
+	Uints    []uint64       // U
+	Floats   []float64      // F
+	Bins     []int          // B
+	Bools    []bool         // BOOLEAN
+	IsValue  bool           // A
+	Str      string         // A literal
+	VarName  string         // A variable
+	Min, Max int            // A variable bounds
+	Vars     map[string]int // copy of the node's variable -> position map
+}
+
+func verifCopyVars(m map[string]int) map[string]int {
+	r := make(map[string]int, len(m))
+	for k, v := range m {
+		r[k] = v
+	}
+	return r
+}
+
+// VerifProject returns the representation of an item node.
+func VerifProject(n ItemNode) *VerifNode {
+	switch t := n.(type) {
+	case emptyItemNode:
+		return &VerifNode{Kind: "none"}
+	case *ListNode:
+		r := &VerifNode{Kind: "L", Vars: verifCopyVars(t.variables)}
+		pos := map[int]bool{}
+		for _, p := range t.variables {
+			pos[p] = true
+		}
+		for i, v := range t.values {
+			if pos[i] {
+				r.Items = append(r.Items, nil)
+			} else {
+				r.Items = append(r.Items, VerifProject(v))
+			}
+		}
+		return r
+	case *ASCIINode:
+		return &VerifNode{Kind: "A", IsValue: t.isValue, Str: t.value, VarName: t.variable.name,
+			Min: t.variable.minLength, Max: t.variable.maxLength}
+	case *BinaryNode:
+		return &VerifNode{Kind: "B", Bins: append([]int(nil), t.values...), Vars: verifCopyVars(t.variables)}
+	case *BooleanNode:
+		return &VerifNode{Kind: "BOOLEAN", Bools: append([]bool(nil), t.values...), Vars: verifCopyVars(t.variables)}
+	case *IntNode:
+		return &VerifNode{Kind: "I", ByteSize: t.byteSize, Ints: append([]int64(nil), t.values...), Vars: verifCopyVars(t.variables)}
+	case *UintNode:
+		return &VerifNode{Kind: "U", ByteSize: t.byteSize, Uints: append([]uint64(nil), t.values...), Vars: verifCopyVars(t.variables)}
+	case *FloatNode:
+		return &VerifNode{Kind: "F", ByteSize: t.byteSize, Floats: append([]float64(nil), t.values...), Vars: verifCopyVars(t.variables)}
+	}
+	return &VerifNode{Kind: "unknown"}
+}
+
+// VerifDataItem returns the item node of a data message.
+func VerifDataItem(m *DataMessage) ItemNode { return m.dataItem }
+
+// VerifWaitBit returns the stored wait-bit number of a data message.
+func VerifWaitBit(m *DataMessage) int { return m.waitBit }
+
+// VerifControlHeader returns a copy of the 10 header bytes of a control message.
+func VerifControlHeader(m HSMSMessage) ([]byte, bool) {
+	c, ok := m.(*ControlMessage)
+	if !ok {
+		return nil, false
+	}
+	return append([]byte(nil), c.header...), true
+}
+
+// VerifHeaderBytes exports the unexported item-header routine.
+func VerifHeaderBytes(typ string, size int) ([]byte, error) { return getHeaderBytes(typ, size) }
+
+// VerifFillHook, when set, receives one event per step of the ellipsis fill machine.
+var VerifFillHook func(op string, dim int, indices []int, ellipsisCount int, multiple bool, oldName, newName string)
+
+func verifFill(op string, state *fillState, oldName, newName string) {
+	if VerifFillHook != nil {
+		VerifFillHook(op, state.currentDimension, append([]int(nil), state.currentIndices...), state.ellipsisCount, state.multipleEllipsis, oldName, newName)
+	}
+}
